@@ -50,7 +50,7 @@ def parse(s):
         i = ident()
         if i in LEAVES:
             return (i,)
-        if i in ("P", "S", "C", "N"):
+        if i in ("P", "S", "C", "N", "B"):       # B(t): blank `_` struct field of type t
             expect("("); e = term(); expect(")")
             return (i, e)
         if i == "A":
@@ -80,7 +80,7 @@ def show(t):
     k = t[0]
     if len(t) == 1:
         return k
-    if k in ("P", "S", "C", "N"):
+    if k in ("P", "S", "C", "N", "B"):
         return "%s(%s)" % (k, show(t[1]))
     if k == "A":
         return "A(%d,%s)" % (t[1], show(t[2]))
@@ -104,6 +104,24 @@ BOUNDARY_ELEM_ONLY = ["A(8,F)", "A(16,F)", "A(9,F)", "A(5,S(i8))", "A(10,S(i8))"
 SMALL = ["i", "u8", "str", "i64", "T(i8,i64)", "E"]
 
 
+# zero-size types of every alignment class
+ZEROS = ["A(0,u64)", "A(0,i64)", "A(0,f64)", "A(0,c128)", "A(0,F)", "A(0,str)", "A(0,P(i8))", "A(0,u32)", "A(0,c64)", "A(0,u16)", "A(0,u8)",
+         "T()", "T(T(),A(0,i64))", "A(3,T())", "A(0,T(i8,i64))", "T(A(0,u64),T())", "N(A(0,u64))", "A(2,A(0,f64))"]
+LESS_ALIGNED = ["u8", "u16", "u32", "T(u8,u16)", "A(3,u8)", "f32"]
+
+
+def zero_field_shapes():
+    """every zero-size type, named and blank, first / middle / last, next to less-aligned fields (incl. the shape
+    struct{ lo, hi uint32; _ [0]uint64 })"""
+    out = ["T(u32,u32,B(A(0,u64)))", "T(u32,u32,A(0,u64))", "T(B(A(0,u64)),u32,u32)", "T(u32,B(A(0,u64)),u32)"]
+    for z in ZEROS:
+        for c in LESS_ALIGNED:
+            for zz in (z, "B(%s)" % z):
+                out += ["T(%s,%s)" % (zz, c), "T(%s,%s,%s)" % (c, zz, c), "T(%s,%s)" % (c, zz), "T(%s)" % zz,
+                        "T(B(%s),%s,%s)" % (c, zz, c), "A(2,T(%s,%s))" % (c, zz), "T(u8,T(%s,%s),u8)" % (zz, c)]
+    return out
+
+
 def gen(rng, d):
     r = rng.random()
     if d <= 0 or r < 0.33:
@@ -113,7 +131,11 @@ def gen(rng, d):
     k = rng.choice(["T", "T", "T", "T", "T", "A", "A", "P", "S", "M", "C", "N"])
     if k == "T":
         n = rng.choice([0, 1, 1, 2, 2, 3, 3, 4, 5, 7])
-        return ("T", [gen(rng, d - 1) for _ in range(n)])
+        fs = [gen(rng, d - 1) for _ in range(n)]
+        if rng.random() < 0.25:         # a zero-size field of some alignment class, at any position
+            fs.insert(rng.randint(0, len(fs)), parse(rng.choice(ZEROS)))
+        fs = [("B", f) if rng.random() < 0.12 else f for f in fs]     # blank `_` fields
+        return ("T", fs)
     if k == "A":
         return ("A", rng.choice([0, 1, 2, 3, 5, 8, 17]), gen(rng, d - 1))
     if k == "M":
@@ -128,7 +150,7 @@ def layout_subterms(t, acc):
         layout_subterms(t[2], acc)
     elif t[0] == "T":
         for f in t[1]:
-            layout_subterms(f, acc)
+            layout_subterms(f[1] if f[0] == "B" else f, acc)
     elif t[0] == "N":
         layout_subterms(t[1], acc)
     return acc
@@ -140,6 +162,8 @@ def map_term(t, f):
     k = t[0]
     if len(t) == 1:
         return f(t)
+    if k == "B":
+        return ("B", map_term(t[1], f))
     if k in ("P", "S", "C", "N"):
         return f((k, map_term(t[1], f)))
     if k == "A":
@@ -161,7 +185,7 @@ def is_zero(t):
         return all(is_zero(f) for f in t[1])
     if k == "A":
         return t[1] == 0 or is_zero(t[2])
-    if k == "N":
+    if k in ("N", "B"):
         return is_zero(t[1])
     return False
 
@@ -187,7 +211,7 @@ def nat32(t):
            "usp": (4, 4), "str": (8, 4), "F": (8, 4), "F1": (8, 4), "E": (8, 4), "I": (8, 4), "P": (4, 4), "M": (4, 4), "C": (4, 4), "S": (12, 4)}
     if k in tab:
         return tab[k]
-    if k == "N":
+    if k in ("N", "B"):
         return nat32(t[1])
     if k == "A":
         z, a = nat32(t[2])
@@ -204,8 +228,8 @@ def repair_nested_tail(t, top=False):
     """make the tail padding of nested structs explicit (a trailing [k]uint8 field); `top`: also of t itself (a map
     key/element is an array element of the bucket)"""
     def pad(x):
-        if x[0] == "N":
-            return ("N", pad(x[1]))
+        if x[0] in ("N", "B"):
+            return (x[0], pad(x[1]))
         if x[0] == "A":
             return ("A", x[1], pad(x[2]))
         if x[0] != "T" or not x[1]:
@@ -422,7 +446,7 @@ def go_type(t):
         return "[%d]%s" % (t[1], go_type(t[2]))
     if k == "M":
         return "map[%s]%s" % (go_type(t[1]), go_type(t[2]))
-    return "struct { " + "; ".join("F%d %s" % (i, go_type(f)) for i, f in enumerate(t[1])) + " }"
+    return "struct { " + "; ".join(("_ %s" % go_type(f[1])) if f[0] == "B" else ("F%d %s" % (i, go_type(f))) for i, f in enumerate(t[1])) + " }"
 
 
 MAPSLOT_PROBES = [("e128", "int", "[16]int64"), ("e127", "int", "[127]byte"), ("e129", "int", "[129]byte"), ("e128b", "int", "[128]byte"),
@@ -673,6 +697,11 @@ def run(ctx, args):
     for s in corpus:
         for sub in layout_subterms(parse(s), []):
             add(sub)
+    zshapes = zero_field_shapes()
+    for s_ in zshapes:
+        for sub in layout_subterms(parse(s_), []):
+            add(sub)
+    n_terms += len(terms)       # the systematic shapes come on top of the random terms
     depth_hist = {}
     while len(terms) < n_terms:
         d = rng.choice([1, 2, 2, 3, 3, 4, 5])
@@ -777,6 +806,14 @@ def run(ctx, args):
         else:
             # a map type: the repairs are applied to key and element, the repaired map's descriptor is judged again
             pending.append({"i": i, "mt": mt, "t": ("MB", meta[i][1], meta[i][2]), "causes": [], "done": False})
+    ALIGN_CAUSES = {"int64-align", "descriptor-align8"}
+
+    def aligns_agree(i):
+        """zero-size tails and nested tail padding explain SIZES and OFFSETS only: with such a cause alone the alignments
+        of the three computations (and of the referenced descriptor) must still agree on the original input"""
+        d0 = decode(ro[i], True)
+        return d0["a"][1] == d0["b"][1] == d0["c"][1] == d0["cfa"] == d0["e"][1]
+
     unexplained = []
     # stage 1: does a single repair explain the disagreement?  (keeps the attribution specific)
     singles = []
@@ -790,7 +827,7 @@ def run(ctx, args):
         out = real([req(p["mt"], t2) for p, cause, t2 in singles])
         for (p, cause, t2), line in zip(singles, out):
             d2 = decode(line, True)
-            if not p["done"] and d2 is not None and judge(d2, p["mt"]):
+            if not p["done"] and d2 is not None and judge(d2, p["mt"]) and (cause in ALIGN_CAUSES or aligns_agree(p["i"])):
                 p["done"] = True
                 p["causes"] = [cause]
     # stage 2: several causes at once — apply the repairs cumulatively
@@ -812,6 +849,9 @@ def run(ctx, args):
                 p["done"] = True
     for p in pending:
         i, mt = p["i"], p["mt"]
+        if p["done"] and not (set(p["causes"]) & ALIGN_CAUSES) and not aligns_agree(i):
+            p["done"] = False
+            p["causes"].append("(alignment differs: not explained by a size-only cause)")
         if p["done"]:
             for cause in p["causes"]:
                 key = "layout:%s:%s" % (mt, cause)
@@ -820,6 +860,7 @@ def run(ctx, args):
         else:
             unexplained.append((lr[i], ro[i], p["causes"]))
     n_un = n_mb = 0
+    per_tgt_un = {}
     for (line, r, tried) in sorted(unexplained, key=lambda u: (len(u[0]), u[0])):      # simplest inputs first
         f = line.split()
         if f[0] == "mb":
@@ -833,7 +874,8 @@ def run(ctx, args):
                        "the emitted map descriptor does not describe a bucket of 8 tophash bytes + 8 key slots + 8 element slots + overflow pointer",
                        {"map": "map[%s]%s" % (go_type(parse(f[2])), go_type(parse(f[3]))), "request": line, "real": r,
                         "violated (what, got, want)": map_spec(d_, *PTR[mt_]) if d_ and "md" in d_ else None, "repairs_tried": tried})
-        elif n_un < 20:
+        elif per_tgt_un.get(f[1], 0) < 6:          # a few per target, simplest first
+            per_tgt_un[f[1]] = per_tgt_un.get(f[1], 0) + 1
             n_un += 1
             ctx.report("layout:unexplained:" + line, "the three computations disagree and no known cause explains it",
                        {"line": line, "real": r, "repairs_tried": tried})
@@ -879,10 +921,11 @@ def run(ctx, args):
         sts = []
         for t in terms:
             u = under(t)
-            if u[0] == "T" and len(u[1]) > 0 and not is_zero(u) and len(show(t)) < 120 and comparable_ok(u):
+            if u[0] == "T" and len(u[1]) > 0 and not is_zero(u) and len(show(t)) < 120 and not any(f[0] == "B" for f in u[1]):
                 sts.append(t)
         rng.shuffle(sts)
-        pick = [parse(s) for s in ["T(i8,i64)", "T(i8,F,i64)", "T(i64,T())", "T(b,F,b)", "T(i32,T(),T())", "T(A(3,F),i8)", "T(T(i32,i8),i8)"]] + sts[:n_e2e]
+        pick = [parse(s) for s in ["T(i8,i64)", "T(i8,F,i64)", "T(i64,T())", "T(b,F,b)", "T(i32,T(),T())", "T(A(3,F),i8)", "T(T(i32,i8),i8)",
+                                   "T(u32,u32,A(0,u64))", "T(A(0,u64),u32)", "T(u8,T(B(A(0,u64)),u8),u8)", "T(u16,A(0,c128),u16)"]] + sts[:n_e2e]
         mlines = model(["%s %s %s" % (QM, MT["amd64"], show(t)) for t in pick])
         llgo_thread.join()
         if "err" in llgo_box:
@@ -1003,7 +1046,3 @@ def run(ctx, args):
                                "map_descriptor_spec": "independent (checks/c08.py map_spec): flags, KeySize/ValueSize, BucketSize and the runtime's slot addressing recomputed from key/elem size+alignment in generated code; boundary types of 127/128/129 bytes generated systematically; unexplained map descriptors %d" % n_mb,
                                "sizes_overrides": {k: list(v) for k, v in overrides.items()}})
 
-
-def comparable_ok(u):
-    """the e2e program boxes a value into `any`; every type can be boxed, nothing to exclude (kept for clarity)"""
-    return True
